@@ -1,4 +1,5 @@
 """C13 — restructuring a dirfile does not change the data it holds."""
+import re
 from vlib import common as C
 from vlib import framework as F
 from vlib import streams, gen, history
@@ -236,6 +237,72 @@ def run(ctx):
             if "XXXXXX" in lsr or "_tmp" in lsr:
                 ctx.fail("input", "temporary file left after restructuring: %s" % lsr[:300], {"script": lines}, sig={"class": "debris"})
         k += len(lines)
+    # ---- stream E: samples-per-frame change with recoding over all twelve types -----------------
+    # The source index of every new sample comes from the Lean model (Restructure.respf applied to a field
+    # holding its own sample numbers); the data are compared as bit patterns, complex types included.
+    import struct as _st
+    ALLT = [("u8", "B", 1), ("i8", "b", 1), ("u16", "H", 2), ("i16", "h", 2), ("u32", "I", 4), ("i32", "i", 4), ("u64", "Q", 8), ("i64", "q", 8),
+            ("f32", "f", 4), ("f64", "d", 8), ("c64", "ff", 8), ("c128", "dd", 16)]
+    PAIRS = [(2, 4), (1, 8), (3, 2), (2, 3), (4, 2), (5, 7), (7, 5), (6, 4), (1, 3)]
+    ecases, echunks, emodel = [], [], []
+    for (ty, fmt, sz) in ALLT:
+        prs = PAIRS if ctx.thorough() else rng.sample(PAIRS, 3 if ty in ("c64", "c128") else 1)
+        for (old, new) in prs:
+            nfr = rng.choice([3, 5, 9])
+            n = nfr * old
+            if len(fmt) == 2:
+                vals = [(float(rng.randint(-90, 90)) + 0.5, float(rng.randint(-90, 90)) - 0.25) for _ in range(n)]
+                raw = b"".join(_st.pack("<" + fmt, a, b) for a, b in vals)
+            elif fmt in "fd":
+                vals = [float(rng.randint(-90, 90)) + 0.5 for _ in range(n)]
+                raw = b"".join(_st.pack("<" + fmt, v) for v in vals)
+            else:
+                lo = 0 if fmt.isupper() else -100
+                vals = [rng.randint(lo, 120) for _ in range(n)]
+                raw = b"".join(_st.pack("<" + fmt, v) for v in vals)
+            enc = rng.choice(["none", "none", "gzip"])
+            data = raw if enc == "none" else __import__("gzip").compress(raw)
+            L = ["reset", "file format " + ("/VERSION 10\n/ENDIAN little\n/ENCODING %s\nv RAW %s %d\nlv LINCOM 1 v 1 0\n" % (enc, gen.GDNAME[ty], old)).encode().hex(),
+                 "file v%s %s" % (gen.ENC_EXT[enc], data.hex()), "open rdwr", "alterraw v %s %d 1" % (ty, new),
+                 "get v 0 0 0 100000 %s" % ty, "get lv 0 0 0 100000 c128", "close", "open rdonly", "get v 0 0 0 100000 %s" % ty]
+            echunks.append(L)
+            ix = b"".join(_st.pack("<I", k) for k in range(n))
+            emodel += ["reset", "def raw ix u32 %d 0 le %s" % (old, ix.hex()), "m_respf ix %d" % new, "get ix 0 0 0 100000 u32"]
+            ecases.append((ty, sz, old, new, raw, n))
+    eres = streams.run_chunks(harness, echunks, "c13e")
+    emo, _, _ = streams.run_model(gdmodel, emodel)
+    nresp = 0
+    for ci, (lines, out, crashed, err) in enumerate(eres):
+        ty, sz, old, new, raw, n = ecases[ci]
+        rep = {"script": lines, "type": ty, "old_spf": old, "new_spf": new}
+        if crashed:
+            ctx.fail("input", "library aborted during gd_alter_raw(spf %d->%d, %s): %s" % (old, new, ty, err[-300:]), dict(rep, stderr=err[-2500:]), sig={"class": "crash", "op": "alterraw"})
+            continue
+        mline = emo[4 * ci + 3]
+        mm = re.match(r"get n=(\d+) e=0 d=(.*)$", split_flags(mline)[0]) if mline.startswith("get") else None
+        if not mm or " e=0" not in out[4]:
+            continue
+        src = [int(x, 16) for x in mm.group(2).split(",") if x]
+        nresp += 1
+        ctx.evaluations += 1
+        ctx.distinct.add(("respf", ty, old, new))
+        for which, oi in (("same handle", 5), ("after reopen", 9)):
+            a = streams.strip_rl(out[oi])[0]
+            got = a.split(" d=")[1].split(",") if " d=" in a and a.split(" d=")[1] else []
+            exp = []
+            for k in src:
+                chunk = raw[k * sz:(k + 1) * sz]
+                if ty in ("c64", "c128"):
+                    h = sz // 2
+                    exp.append("%x;%x" % (int.from_bytes(chunk[:h], "little"), int.from_bytes(chunk[h:], "little")))
+                else:
+                    exp.append("%x" % int.from_bytes(chunk, "little"))
+            if got != exp:
+                bad = next((j for j in range(min(len(got), len(exp))) if got[j] != exp[j]), min(len(got), len(exp)))
+                ctx.fail("input", "gd_alter_raw(%s, spf %d -> %d, recode) %s: new sample %d is %s, old sample %s = %s expected (%d vs %d samples)" % (
+                    ty, old, new, which, bad, got[bad] if bad < len(got) else "-", src[bad] if bad < len(src) else "-", exp[bad] if bad < len(exp) else "-", len(got), len(exp)),
+                    rep, sig={"class": "respf", "type": ty})
+                break
     ctx.coverage.update({
         "rule": "220 (quick) / 900 (thorough) two-fragment dirfiles x 1-4 restructuring calls (gd_alter_encoding, gd_alter_endianness, gd_alter_frameoffset with recode; gd_alter_raw type and/or sample rate with recode; gd_move and gd_rename with data) "
                 "over 6 encodings, 4 byte orders, frame offsets 0-5, 10 types; whole-field reads of 4 RAW and 5 derived fields after each call, same handle and after reopen",
